@@ -40,6 +40,8 @@ type C19W struct {
 	StartBlocked bool `json:"start_blocked,omitempty"`
 	// CfgUpdate: the named plugin issues one unsolicited update from inside its Configure handler.
 	CfgUpdate string `json:"cfg_update,omitempty"`
+	// Late: that many further plugins register while the updates and requests are under way
+	Late int `json:"late,omitempty"`
 }
 
 type C19Kill struct {
@@ -50,6 +52,9 @@ type C19Kill struct {
 
 func c19Gen(rng *rand.Rand, conf string, idx int) any {
 	w := &C19W{Unstarted: rng.Intn(3) == 0}
+	if rng.Intn(3) == 0 {
+		w.Late = 1 + rng.Intn(2)
+	}
 	names := []string{"uma", "vic", "wes", "xia"}
 	n := 1 + rng.Intn(4)
 	for k := 0; k < n; k++ {
@@ -242,6 +247,11 @@ func c19Run(t *testing.T, wl any, sc SchedCfg) *Result {
 						go func() { e.S.SetGName(fmt.Sprintf("fault-stop-%d", ki)); plugs[kl.Plugin].Stub.Stop() }()
 					}
 				}})
+		}
+		for k := 0; k < w.Late; k++ {
+			lp := h.AddPlugin(fmt.Sprintf("zed%d", k), fmt.Sprintf("%02d", 90+k), 0)
+			h.StartTask(lp)
+			e.S.Probe("C19.plugin-registers-during-the-updates")
 		}
 		rets := make([][]*c19Ret, len(plugs))
 		for k, p := range plugs {
